@@ -3,6 +3,7 @@ package main
 // C14 — retention cleanup deletes only this appender's own expired files.
 
 import (
+	"bytes"
 	"encoding/json"
 	"fmt"
 	"math/rand/v2"
@@ -246,6 +247,54 @@ func c14zone(at time.Time, forward bool) (*time.Location, error) {
 	return time.LoadLocationFromTZData("synthetic-dst", b)
 }
 
+// c14failedRotation: the appender has been silent for longer than maxAge (its current file is old), and the rotation that the
+// next write triggers cannot create its file (directories already sit under the upcoming names). The write goes to the file the
+// appender already has - which is the file currently being written and must not be deleted, however old it is.
+func c14failedRotation(w *W, dir string, k int) {
+	_ = os.RemoveAll(dir)
+	_ = os.MkdirAll(dir, 0755)
+	defer os.RemoveAll(dir)
+	name := []string{"app.log", "svc", "q?.log"}[k%3]
+	ap := &log.RollingFileAppender{AppenderBase: log.AppenderBase{Name: "fr"}, Layout: &log.TextLayout{}, FileDir: dir, FileName: name, Rotation: log.TimeRotation{Interval: time.Second}, MaxAge: int32(1 + k%3)}
+	cs := map[string]any{"scenario": "silent for longer than maxAge, then a rotation whose file cannot be created", "file_name": name, "max_age_h": ap.MaxAge}
+	if err := ap.Start(); err != nil {
+		w.Note("failed-rotation scenario: start failed: " + err.Error())
+		return
+	}
+	defer ap.Stop()
+	ap.Write([]byte("id-fr" + fmt.Sprint(k) + "-1 before the silence\n"))
+	var cur string
+	for n := range c14listing(dir) {
+		cur = n
+	}
+	old := time.Now().Add(-time.Duration(ap.MaxAge)*time.Hour - 3*time.Hour)
+	_ = os.Chtimes(filepath.Join(dir, cur), old, old)
+	// an expired own file as well: whether or not it gets deleted on this path is not judged
+	exp := filepath.Join(dir, name+".20200101000000")
+	_ = os.WriteFile(exp, []byte("x"), 0644)
+	_ = os.Chtimes(exp, old, old)
+	now := time.Now()
+	for s := 1; s <= 4; s++ {
+		_ = os.MkdirAll(filepath.Join(dir, name+"."+now.Add(time.Duration(s)*time.Second).Format("20060102150405")), 0755)
+	}
+	time.Sleep(now.Truncate(time.Second).Add(time.Second + 5*time.Millisecond).Sub(now))
+	if pv, st := catch(func() { ap.Write([]byte("id-fr" + fmt.Sprint(k) + "-2 after the silence\n")) }); pv != nil {
+		w.Violate("C14:cleanup-panic", fmt.Sprintf("write after a failed rotation panicked: %v\n%s", pv, trunc(st, 600)), cs)
+		return
+	}
+	time.Sleep(100 * time.Millisecond)
+	w.Eval(1)
+	b, err := os.ReadFile(filepath.Join(dir, cur))
+	switch {
+	case err != nil:
+		w.Violate("C14:deleted-current-file", fmt.Sprintf("the file being written (%s, last modified %d h ago, maxAge %d h) was deleted when the rotation could not create the next file", cur, ap.MaxAge+3, ap.MaxAge), cs)
+	case !bytes.Contains(b, []byte("after the silence")):
+		w.Violate("C14:deleted-current-file", fmt.Sprintf("the write after the failed rotation is not in the file the appender already had (%s)", cur), cs)
+	default:
+		w.Distinct(fmt.Sprintf("failed-rotation|%s|maxage=%d", name, ap.MaxAge))
+	}
+}
+
 func c14Worker(w *W) {
 	if z := w.Arg("synthdst", ""); z != "" {
 		var dir string
@@ -315,6 +364,17 @@ func c14Worker(w *W) {
 		}
 		cs := map[string]any{"index": ci, "case": c, "dir": dirName}
 		w.Journal("C14 case %d %+v", ci, c)
+		if w.Spec.Kind == "e2e" && c.Sibling {
+			// two more appenders share the directory and cross the boundary at the same moment (four retention scans start
+			// together): each must still clean its own expired files
+			for _, sfx := range []string{".a2", ".a3"} {
+				nm := c.FileName + sfx
+				for k := 0; k < 3; k++ {
+					c.Ents = append(c.Ents, c14ent{Name: nm + "." + c14ts(r), AgeMin: int(c.MaxAge)*60 + 600 + k, Class: "own"})
+				}
+				c.Ents = append(c.Ents, c14ent{Name: nm + "." + c14ts(r), AgeMin: 0, Class: "own"})
+			}
+		}
 		t0 := time.Now()
 		if err := c14populate(dir, c, t0); err != nil {
 			w.Note("populate failed: " + err.Error())
@@ -363,6 +423,17 @@ func c14Worker(w *W) {
 					started = false
 				}
 			}
+		}
+		if started && e2e && c.Sibling {
+			for _, sfx := range []string{".a2", ".a3"} {
+				a := mk(c.FileName + sfx)
+				if err := a.Start(); err != nil {
+					started = false
+				}
+				aps = append(aps, a)
+				names = append(names, c.FileName+sfx)
+			}
+			w.Count("cases_with_four_appenders_crossing_together", 1)
 		}
 		if !started {
 			w.Note("appender start failed")
@@ -482,10 +553,9 @@ func c14Worker(w *W) {
 		}
 		if viaLogger != nil {
 			viaLogger.Stop()
-		} else {
-			for _, a := range aps {
-				a.Stop()
-			}
+		}
+		for _, a := range aps {
+			a.Stop() // (a second Stop of the logger's own appenders is harmless)
 		}
 		if time.Since(t0) > 9*time.Minute {
 			w.Inconclusive("case took longer than the 10-minute margin around the cut-off")
@@ -514,6 +584,11 @@ func c14Worker(w *W) {
 		_ = os.RemoveAll(dir)
 		if decoy != "" {
 			_ = os.RemoveAll(decoy)
+		}
+	}
+	if w.Spec.Kind == "e2e" && only < 0 {
+		for k := 0; k < 2; k++ {
+			c14failedRotation(w, filepath.Join(base, fmt.Sprintf("fr%d", k)), w.Spec.Shard*2+k)
 		}
 	}
 }
